@@ -168,6 +168,17 @@ Lemma request_length_witness :
               /\ parse_requests strict 2 out = PErr Incomplete.
 Proof. eexists. split; vm_compute; reflexivity. Qed.
 
+(* request-body-without-content-length: the body of a POST without content-length is written after the head as it is;
+   when it looks like a request the reference reader finds two requests *)
+Definition W_SMUGGLED : bytes :=
+  [x47;x45;x54;x20;x2f;x61;x64;x6d;x69;x6e;x20;x48;x54;x54;x50;x2f;x31;x2e;x31;x0d;x0a;x48;x6f;x73;x74;x3a;x20;x78;x0d;x0a;x0d;x0a].
+Lemma request_split_witness :
+  exists out q1 q2,
+    down_request (fun _ => true) [(P_METHOD, [x50;x4f;x53;x54]); (P_SCHEME, V_HTTP); (P_AUTHORITY, W_HOST); (P_PATH, [x2f;x61])]
+                 (Some W_SMUGGLED) None = OForward out false
+    /\ parse_requests strict 3 out = POk [q1; q2] /\ q_target q2 = [x2f;x61;x64;x6d;x69;x6e].
+Proof. do 3 eexists. split; [vm_compute; reflexivity|]. split; vm_compute; reflexivity. Qed.
+
 (* trailers: Http1Client.send raises *)
 Lemma request_trailers_witness :
   down_request (fun _ => true) (W_REQ []) (Some [x61]) (Some [([x78], [x31])]) = OCrashTrailers.
@@ -195,15 +206,18 @@ Proof. do 2 eexists. split; vm_compute; reflexivity. Qed.
 Definition W_POST : bytes := [x50;x4f;x53;x54].
 Definition sample_block : headers :=
   [(P_METHOD, W_POST); (P_SCHEME, V_HTTPS); (P_AUTHORITY, W_HOST); (P_PATH, [x2f;x61]);
-   (N_COOKIE, [x61;x3d;x31]); ([x78;x2d;x61], [x62]); (N_COOKIE, [x62;x3d;x32])].
+   (N_COOKIE, [x61;x3d;x31]); (CONTENT_LENGTH, [x39]); (N_COOKIE, [x62;x3d;x32])].
 Definition sample_body : bytes := [x47;x45;x54;x20;x2f;x0d;x0a;x0d;x0a].
+Definition W_JOINED : bytes := [x61;x3d;x31;x3b;x20;x62;x3d;x32].
 
 Lemma sample_ok :
   (exists out, down_request (fun _ => true) sample_block (Some sample_body) None = OForward out false
-     /\ contains CHUNKED out = true)
-  /\ length_guard None sample_block (Some sample_body) /\ cookie_guard sample_block.
+     /\ contains W_JOINED out = true)
+  /\ length_guard None sample_block (Some sample_body) /\ framing_guard sample_block (Some sample_body)
+  /\ cookie_guard sample_block.
 Proof.
-  split; [eexists; split; vm_compute; reflexivity|]. split; [intros X; discriminate | vm_compute; discriminate].
+  split; [eexists; split; vm_compute; reflexivity|]. split; [intros X; discriminate|].
+  split; [intros _; vm_compute; discriminate | vm_compute; discriminate].
 Qed.
 
 (* ---------- what the written request means, in terms of the accepted header block *)
@@ -215,13 +229,13 @@ Theorem down_request_semantics pa h body out c :
     (exists q, h = q ++ hq_fields r /\ Forall (fun x => is_pseudo (fst x) = true) q
        /\ In (P_METHOD, hq_method r) q /\ In (P_SCHEME, hq_scheme r) q /\ In (P_PATH, hq_path r) q
        /\ (hq_authority r = [] \/ In (P_AUTHORITY, hq_authority r) q)) /\
-    forall es, let fs := h1_fields (strip_r r) es in
+    let fs := h1_fields (strip_r r) in
       field_values N_HOST fs
         = (if negb (hcontains N_HOST_CAP (hq_fields r)) && nonempty (hq_authority r)
            then [hq_authority r] else field_values N_HOST (hq_fields r))
       /\ field_values N_COOKIE fs
         = match get_all N_COOKIE (hq_fields r) with (_ :: _ :: _) as l => [join_semi l] | l => l end
-      /\ forall k, k <> N_HOST -> k <> N_COOKIE -> k <> TRANSFER_ENCODING -> k <> N_EXPECT ->
+      /\ forall k, k <> N_HOST -> k <> N_COOKIE -> k <> N_EXPECT ->
            filter (name_ci k) fs = filter (name_ci k) (hq_fields r).
 Proof.
   unfold down_request. intros H.
@@ -244,12 +258,12 @@ Proof.
   assert (NoTE' : get_all TRANSFER_ENCODING (hq_fields (strip_r r)) = []).
   { rewrite get_all_filter in *. change (lower TRANSFER_ENCODING) with TRANSFER_ENCODING in *.
     cbn [strip_r hq_fields]. rewrite strip_expect_filter by discriminate. exact NoTE. }
-  intros es. cbv zeta. split; [|split].
-  - rewrite (F_host (strip_r r) es NoTE' AuthOk). cbn [strip_r hq_fields hq_authority].
+  cbv zeta. split; [|split].
+  - rewrite (F_host (strip_r r)). cbn [strip_r hq_fields hq_authority].
     unfold hcontains. rewrite !field_values_filter, !get_all_filter. change (lower N_HOST_CAP) with N_HOST.
     rewrite !strip_expect_filter by discriminate. reflexivity.
-  - rewrite (F_cookie (strip_r r) es NoTE'). cbn [strip_r hq_fields]. rewrite !get_all_filter.
+  - rewrite (F_cookie (strip_r r)). cbn [strip_r hq_fields]. rewrite !get_all_filter.
     change (lower N_COOKIE) with N_COOKIE. rewrite strip_expect_filter by discriminate. reflexivity.
-  - intros k N1 N2 N3 N4. rewrite (F_other (strip_r r) es NoTE' k N1 N2 N3). cbn [strip_r hq_fields].
+  - intros k N1 N2 N4. rewrite (F_other (strip_r r) k N1 N2). cbn [strip_r hq_fields].
     apply strip_expect_filter. exact N4.
 Qed.
